@@ -39,6 +39,14 @@ CHECKS["C12"] = (True, MC, "one-step structural induction: symbolic execution of
     "the replay channel and covers ComputeTypes' scopes; labelled non-symbolic.",
     "Trusts z3 and the SymName model (names compared only by ==/hash); the induction over tree depth is a paper argument.", "DESIGN.md 5 (C12)")
 
+CHECKS["C10"] = (True, MC, "symbolic execution of the real Scope.FindFunction / Function.Match over symbolic per-argument scores and of types.Match over symbolic sizes (symx + z3)",
+    "Bounded symbolic check: real types.Function objects are registered in every order and the real FindFunction (summation, sort, filter, tie test) runs with "
+    "types.Match replaced by its contract, a symbolic score in {-1,0,1} per (candidate, argument); z3 decides per path that the chosen function is the unique "
+    "viable candidate with the fewest conversions and that an error is raised exactly when there is none, for every value of the scores. A second harness checks the real "
+    "types.Match/IsCompatible against the contract on real type objects with symbolic sizes and extents. Overload sets through Compiler().Compile and the VM "
+    "(all 1-parameter pairs/triples, 2-parameter pairs) are the replay channel and a concrete gate.",
+    "Trusts z3, the proxy model, and vlib/spec_types.py (written from the statement). 1-3 candidates x 0-2 parameters; optional parameters outside.", "DESIGN.md 5 (C10)")
+
 NOT_YET = "check not built yet in this round (see DESIGN.md status); nothing is claimed"
 NA = {
     "C18": "quantifies over hash seeds, processes and compilation histories: none of these is a value flowing through the code, so there is no assertion over symbolic variables for a solver to decide (DESIGN.md section 6)",
